@@ -139,6 +139,16 @@ func genXML(t *tape.Tape, o GenOpts) *World {
 		w.SetTag("xml.namespaces", "1")
 	}
 	m := Model{Fields: append([]string{}, fn...), IntField: fn[sh.IntIdx], Ctx: []string{"../hdr/h0"}}
+	// records one level further down, inside group elements: the target xpath has a middle step, with or
+	// without a predicate on an attribute of the group (known when the group's start tag is read)
+	grouped, groupPred, groupReopen := false, false, false
+	if o.Family == "" && !sh.NumericFilter && t.Chance("xml.grouped", 1, 4) {
+		grouped = true
+		groupPred = t.Bool("xml.grouped.predicate")
+		groupReopen = !o.NoSiblingContext && t.Bool("xml.grouped.reopen")
+		m.Ctx = []string{"../../hdr/h0", "../ghdr", "../@k"}
+		w.SetTag("xml.records-inside-groups", "1")
+	}
 	// the last field's value may be stored as an attribute of an element that has text but no child elements
 	attrField := -1
 	if len(fn)-1 != sh.IntIdx && len(fn) > 2 && t.Chance("xml.leaf-attribute", 1, 5) {
@@ -174,6 +184,13 @@ func genXML(t *tape.Tape, o GenOpts) *World {
 			target = "/root/rec[@a0 != '" + sh.SkipValue + "']"
 			w.SetTag("xml.attribute-filter", "1")
 		}
+	}
+	if grouped {
+		step := "/root/grp"
+		if groupPred {
+			step = "/root/grp[@k='A']"
+		}
+		target = step + strings.TrimPrefix(target, "/root")
 	}
 	decls["FINAL_OUTPUT"].(D)["xpath"] = target
 	pretty := t.Weighted("xml.pretty", 2, 1, 1)
@@ -243,6 +260,20 @@ func genXML(t *tape.Tape, o GenOpts) *World {
 			w.Sep = "<!-- c -->"
 		}
 	}
+	if grouped {
+		w.Prefix += `<grp k="A"><ghdr>` + xmlEsc.Replace(Text(t, sh.Charset, 4)) + "</ghdr>"
+		if pretty == 1 {
+			w.Prefix += "\n  "
+		}
+		if groupReopen {
+			w.Sep += `</grp><grp k="A">`
+		}
+		w.Suffix += "</grp>"
+		if groupPred {
+			// a group the predicate rejects, with an element that would be a record elsewhere
+			w.Suffix += `<grp k="B"><ghdr>b</ghdr><rec a0="zz"><F0>zz</F0><F1>1</F1></rec></grp>`
+		}
+	}
 	w.Suffix += "</root>"
 	drawRecs(t, w, sh, o)
 	if xmlWritten != nil && t.Chance("xml.ns.inner", 1, 2) {
@@ -279,6 +310,16 @@ func genJSON(t *tape.Tape, o GenOpts) *World {
 	if sh.NItemFields > 0 {
 		m.Item = &ItemModel{XPath: "items/*", Fields: gn, IntField: gn[sh.ItemIntIdx]}
 	}
+	// records inside group objects: the target xpath has middle steps, with or without a predicate on a
+	// member of the group that precedes the records
+	grouped, groupPred, groupReopen := false, false, false
+	if o.Family == "" && !sh.NumericFilter && t.Chance("json.grouped", 1, 4) {
+		grouped = true
+		groupPred = t.Bool("json.grouped.predicate")
+		groupReopen = !o.NoSiblingContext && t.Bool("json.grouped.reopen")
+		m.Ctx = []string{"../../../../hdr/h0", "../../k"}
+		w.SetTag("json.records-inside-groups", "1")
+	}
 	decls, js, ext := GenDecls(t, m, declOptsOf(o))
 	addPoisonable(decls, m.IntField)
 	addJSPoisonable(t, w, decls, o, fn)
@@ -291,7 +332,14 @@ func genJSON(t *tape.Tape, o GenOpts) *World {
 	}
 	// a stream of top-level values, one per record (NDJSON), the top-level value being the target;
 	// drawn here, applied below (the library as it stands reads the first value and refuses the rest)
-	ndjson := o.Family == "" && !o.OwnDataOnly && t.Chance("json.ndjson", 1, 8)
+	ndjson := !grouped && o.Family == "" && !o.OwnDataOnly && t.Chance("json.ndjson", 1, 8)
+	if grouped {
+		step := "/grps/*"
+		if groupPred {
+			step = "/grps/*[k='A']"
+		}
+		target = step + target
+	}
 	if ndjson {
 		target = "."
 		if sh.NumericFilter {
@@ -343,6 +391,17 @@ func genJSON(t *tape.Tape, o GenOpts) *World {
 	w.Suffix = "]}"
 	if ndjson {
 		w.Prefix, w.Sep, w.Suffix = "", "\n", "\n"
+	}
+	if grouped {
+		w.Prefix = `{"hdr":{"h0":` + jsonStr(Text(t, sh.Charset, 6)) + `},"grps":[{"k":"A","recs":[`
+		if groupReopen {
+			w.Sep = `]},` + strings.TrimPrefix(w.Sep, ",") + `{"k":"A","recs":[`
+		}
+		w.Suffix = "]}"
+		if groupPred {
+			w.Suffix += `,{"k":"B","recs":[{"F0":"zz","F1":"1"}]}`
+		}
+		w.Suffix += "]}"
 	}
 	drawRecs(t, w, sh, o)
 	if MaybeScalarOutput(t, decls, m, o) {
